@@ -26,6 +26,16 @@ def const(rng: random.Random, small=False) -> int:
     return rng.randint(-(2 ** 31), 2 ** 31 - 1)
 
 
+def small_const(rng: random.Random) -> int:
+    """small constants with the special values 0, 1, -1 over-represented"""
+    r = rng.random()
+    if r < 0.2:
+        return 0
+    if r < 0.35:
+        return rng.choice([1, -1])
+    return rng.randint(-20, 20)
+
+
 def lit(v: int) -> str:
     # a negative literal directly after a binary operator lexes as one NUMBER token; parenthesise
     return f"({v})" if v < 0 else str(v)
@@ -151,7 +161,7 @@ class ScalarGen:
     def outspec(self, depth: int) -> str:
         rng = self.rng
         cond = self.compare(max(depth - 1, 1))
-        val = self.pick_signal() if rng.random() < 0.7 else lit(const(rng, small=True))
+        val = self.pick_signal() if rng.random() < 0.7 else lit(small_const(rng))
         return f"({cond} : {val})"
 
     # ---- program
@@ -281,7 +291,7 @@ class BundleGen:
             self.lines.append(f"Bundle {nm} = (({b} {rng.choice(CMP)} {self.scalar_operand()}) : {b});")
             self.bundles.append((nm, tys))
         elif r < 0.55:
-            self.lines.append(f"Bundle {nm} = (({b} {rng.choice(CMP)} {self.scalar_operand()}) : {lit(const(rng, small=True))});")
+            self.lines.append(f"Bundle {nm} = (({b} {rng.choice(CMP)} {self.scalar_operand()}) : {lit(small_const(rng))});")
             self.bundles.append((nm, tys))
         elif r < 0.65 and self.scalars:
             s = rng.choice(self.scalars)[0]
@@ -291,7 +301,7 @@ class BundleGen:
             sn = self.fresh("q")
             fn = rng.choice(["any", "all"])
             if rng.random() < 0.5 or not self.scalars:
-                self.lines.append(f"Signal {sn} = ({fn}({b}) {rng.choice(CMP)} {lit(const(rng, small=True))});")
+                self.lines.append(f"Signal {sn} = ({fn}({b}) {rng.choice(CMP)} {lit(small_const(rng))});")
             else:
                 s = rng.choice(self.scalars)[0]
                 self.lines.append(f"Signal {sn} = (({fn}({b}) {rng.choice(CMP)} {lit(const(rng, small=True))}) : {s});")
@@ -357,7 +367,11 @@ def gen_gated(seed: int) -> str:
         lines.append(f'Memory {m}: "{t}";')
         data = f"({_stateless(rng, names, 1)} | \"{t}\")"
         r = rng.random()
-        if r < 0.6:
+        if r < 0.25:
+            # the documented idiom: enable while an input (or a difference of inputs) is positive
+            a = rng.choice(names)[0]
+            en = f"{a} > 0" if rng.random() < 0.6 else f"({a} - {rng.choice(names)[0]}) > 0"
+        elif r < 0.6:
             en = _condition(rng, names)
         elif r < 0.8:
             en = rng.choice(names)[0]
@@ -451,11 +465,15 @@ def gen_entities(seed: int) -> str:
         lines.append(f'Entity {nm} = place("{proto}", {x}, 0);')
         x += 3
         r = rng.random()
-        if r < 0.35:
+        if r < 0.3:
             cond = _condition(rng, names)
+            if rng.random() < 0.25:
+                cond = f"!{cond}"
         elif r < 0.5 and chests:
             k = rng.randint(1, len(chests))
             cond = f"{rng.choice(['any', 'all'])}(items{k}) {rng.choice(CMP)} {rng.randint(0, 200)}"
+            if rng.random() < 0.35:
+                cond = f"!({cond})"
         elif r < 0.65 and chests:
             k = rng.randint(1, len(chests))
             cond = f'(items{k}["iron-plate"] {rng.choice(CMP)} {rng.randint(0, 200)})'
@@ -529,8 +547,28 @@ def gen_loops(seed: int) -> str:
         head = "for i in lo..hi" + (f" step {s}" if s else "")
     else:
         head = f"for i in {a}..{b}" + (f" step {s}" if s else "")
-    lines.append(head + " {")
     body_kind = rng.random()
+    if body_kind < 0.2:
+        # an outer entity variable is re-bound by the body: every iteration configures the previous placement
+        lines.append('Entity last = place("small-lamp", 0, 9);')
+        lines.append(head + " {")
+        lines.append(f"    last.enable = {x} > i * 10;")
+        lines.append('    last = place("small-lamp", i * 2, 5);')
+        lines.append("}")
+        lines.append(f"last.enable = {x} > 99;")
+        lines.append(f"Signal after = {x} + 1;")
+        return "\n".join(lines) + "\n"
+    if body_kind < 0.3:
+        lines.append("func scaled(Signal s, int k) {")
+        lines.append("    return s * k;")
+        lines.append("}")
+        lines.append(head + " {")
+        lines.append('    Entity lamp = place("small-lamp", i, 7);')
+        lines.append(f"    lamp.enable = scaled({x}, i) > 3;")
+        lines.append("}")
+        lines.append(f"Signal after = {x} + 1;")
+        return "\n".join(lines) + "\n"
+    lines.append(head + " {")
     if body_kind < 0.6:
         lines.append(f'    Entity lamp = place("small-lamp", i, {rng.randint(0, 3)});')
         lines.append(f"    lamp.enable = {x} {rng.choice(CMP)} i;")
@@ -656,4 +694,269 @@ def gen_cse(seed: int) -> str:
         lines.append(f'Memory mc: "signal-7";')
         lines.append(f"mc.write(({a} | \"signal-7\"), when=({b} > ({c1} + 1)));")
         lines.append("Signal rc = mc.read();")
+    return "\n".join(lines) + "\n"
+
+
+# ------------------------------------------------------------------ independent programs (C12)
+import re as _re
+
+
+def _rename(src: str, prefix: str) -> str:
+    """prefix every user identifier (variables, functions, memories) of a generated program"""
+    kw = {"Signal", "int", "Bundle", "Entity", "Memory", "func", "return", "for", "in", "step", "place", "read", "write",
+          "when", "set", "reset", "any", "all", "and", "or", "AND", "OR", "XOR", "output", "enable", "type", "import"}
+    out = []
+    for line in src.splitlines():
+        parts = _re.split(r'("(?:[^"\\]|\\.)*")', line)
+        for i in range(0, len(parts), 2):
+            parts[i] = _re.sub(r"\b([A-Za-z_][A-Za-z0-9_]*)\b",
+                               lambda m: m.group(1) if m.group(1) in kw else prefix + m.group(1), parts[i])
+        out.append("".join(parts))
+    return "\n".join(out) + "\n"
+
+
+def _statements(src: str) -> list[str]:
+    """split a generated program into top-level statements (brace-aware)"""
+    sts, cur, depth = [], [], 0
+    for line in src.splitlines():
+        if not line.strip():
+            continue
+        cur.append(line)
+        depth += line.count("{") - line.count("}")
+        if depth == 0:
+            sts.append("\n".join(cur))
+            cur = []
+    return sts
+
+
+def gen_independent(seed: int):
+    """(P, Q, interleaving of P and Q): P and Q share no name but draw signal types and constants from
+    the same small pools, so explicit signal names overlap."""
+    rng = random.Random(seed)
+    kinds = [gen_scalar, gen_scalar, gen_bundle, gen_gated, gen_latch, gen_entities]
+    gp, gq = rng.choice(kinds), rng.choice(kinds)
+    p = _rename(gp(rng.randint(0, 10 ** 9)), "p_")
+    q = _rename(gq(rng.randint(0, 10 ** 9)), "q_")
+    # move q's placed entities away from p's (same coordinates would be a user error, not a compiler one)
+    q = _re.sub(r'place\("([^"]+)", (-?\d+), (-?\d+)', lambda m: f'place("{m.group(1)}", {int(m.group(2)) + 40}, {int(m.group(3)) + 7}', q)
+    sp, sq = _statements(p), _statements(q)
+    merged = []
+    i = j = 0
+    while i < len(sp) or j < len(sq):
+        if j >= len(sq) or (i < len(sp) and rng.random() < 0.5):
+            merged.append(sp[i]); i += 1
+        else:
+            merged.append(sq[j]); j += 1
+    return p, q, "\n".join(merged) + "\n"
+
+
+# ------------------------------------------------------------------ untyped values (C13)
+def gen_untyped(seed: int) -> str:
+    rng = random.Random(seed)
+    prof = rng.random()
+    if prof < 0.25:
+        # more untyped values than the 26 letters
+        n = rng.randint(27, 40)
+        lines = [f"Signal u{i} = {rng.randint(-9, 9)};" for i in range(n)]
+        for i in range(0, n - 1, 2):
+            lines.append(f"Signal s{i} = (u{i} {rng.choice(['+', '-', '*'])} u{i + 1});")
+        return "\n".join(lines) + "\n"
+    g = ScalarGen(rng, share=0.2, max_depth=2, typed_bias=0.35)
+    if prof < 0.6:
+        # the program explicitly uses the first letters / digits the allocator would pick
+        g.free_types = ["signal-C", "signal-B", "signal-A", "signal-1", "signal-0"][::-1] + g.free_types
+        g.typed_bias = 0.6
+    return g.program(n_inputs=rng.randint(2, 5))
+
+
+# ------------------------------------------------------------------ ill-formed programs (C14)
+RULES = ["undef_var", "undef_func", "undef_mem", "undef_entity", "redefine", "assign_immutable", "assign_param", "assign_iterator",
+         "kind_int", "kind_entity", "kind_param", "kind_param_signal",
+         "arity", "recursion", "indirect_recursion", "bundle_dup", "bundle_op_bundle", "bare_bundle_cmp", "select_absent",
+         "unknown_signal", "reserved_literal", "reserved_proj", "reserved_memory", "mem_type", "second_write", "zero_step",
+         "zero_step_var", "non_comparison_outspec", "syntax_semicolon", "syntax_paren"]
+
+
+def violation_snippet(rule: str, rng: random.Random, k: int):
+    """(prelude statements that are themselves valid, the violating statement) using fresh names z<k>_*"""
+    z = f"z{k}"
+    pre, bad = [], ""
+    if rule == "undef_var":
+        bad = f"Signal {z}_a = nosuchvar{k} + 1;"
+    elif rule == "undef_func":
+        bad = f"Signal {z}_a = nosuchfunc{k}(1);"
+    elif rule == "undef_mem":
+        bad = f"Signal {z}_a = nosuchmem{k}.read();"
+    elif rule == "undef_entity":
+        bad = f"nosuchent{k}.enable = 1;"
+    elif rule == "redefine":
+        pre = [f'Signal {z}_a = ("signal-A", 1);']
+        bad = f'Signal {z}_a = ("signal-B", 2);'
+    elif rule == "assign_immutable":
+        pre = [f'Signal {z}_a = ("signal-A", 1);']
+        bad = f"{z}_a = 5;"
+    elif rule == "kind_int":
+        pre = [f'Signal {z}_a = ("signal-A", 1);']
+        bad = f"int {z}_n = {z}_a;"
+    elif rule == "kind_param":
+        pre = [f"func {z}_f(Entity e) {{", "    e.enable = 1;", "    return 1;", "}", f'Signal {z}_a = ("signal-A", 1);']
+        bad = f"Signal {z}_r = {z}_f({z}_a) | \"signal-B\";"
+    elif rule == "kind_param_signal":
+        pre = [f"func {z}_f(Signal s) {{", "    return s + 1;", "}", f'Entity {z}_l = place("small-lamp", {60 + k % 30}, 40);']
+        bad = f"Signal {z}_r = {z}_f({z}_l);"
+    elif rule == "kind_entity":
+        pre = [f'Signal {z}_a = ("signal-A", 1);']
+        bad = f"Entity {z}_e = {z}_a;"
+    elif rule == "assign_param":
+        pre = [f"func {z}_f(Signal s, int n) {{", "    n = 7;", "    return s * n;", "}", f'Signal {z}_a = ("signal-A", 1);']
+        bad = f"Signal {z}_r = {z}_f({z}_a, 2);"
+    elif rule == "assign_iterator":
+        bad = f"for {z}_i in 0..3 {{ {z}_i = 5; }}"
+    elif rule == "arity":
+        pre = [f"func {z}_f(Signal s, int n) {{", "    return s + n;", "}", f'Signal {z}_a = ("signal-A", 1);']
+        bad = f"Signal {z}_r = {z}_f({z}_a);"
+    elif rule == "recursion":
+        pre = [f"func {z}_f(Signal s) {{", f"    return {z}_f(s) + 1;", "}", f'Signal {z}_a = ("signal-A", 1);']
+        bad = f"Signal {z}_r = {z}_f({z}_a);"
+    elif rule == "indirect_recursion":
+        pre = [f"func {z}_g(Signal s) {{", f"    return {z}_h(s) + 1;", "}", f"func {z}_h(Signal s) {{", f"    return {z}_g(s) + 2;", "}",
+               f'Signal {z}_a = ("signal-A", 1);']
+        bad = f"Signal {z}_r = {z}_g({z}_a);"
+    elif rule == "bundle_dup":
+        bad = f'Bundle {z}_b = {{ ("iron-plate", 1), ("iron-plate", 2) }};'
+    elif rule == "bundle_op_bundle":
+        pre = [f'Bundle {z}_b = {{ ("iron-plate", 1) }};', f'Bundle {z}_c = {{ ("copper-plate", 2) }};']
+        bad = f"Bundle {z}_d = {z}_b + {z}_c;"
+    elif rule == "bare_bundle_cmp":
+        pre = [f'Bundle {z}_b = {{ ("iron-plate", 1), ("coal", 3) }};']
+        bad = f"Signal {z}_s = {z}_b > 3;"
+    elif rule == "select_absent":
+        pre = [f'Bundle {z}_b = {{ ("iron-plate", 1), ("coal", 3) }};']
+        bad = f'Signal {z}_s = {z}_b["wood"];'
+    elif rule == "unknown_signal":
+        bad = f'Signal {z}_s = ("not-a-real-signal-{k}", 1);'
+    elif rule == "reserved_literal":
+        bad = f'Signal {z}_s = ("signal-W", 1);'
+    elif rule == "reserved_proj":
+        pre = [f'Signal {z}_a = ("signal-A", 1);']
+        bad = f'Signal {z}_s = {z}_a | "signal-W";'
+    elif rule == "reserved_memory":
+        bad = f'Memory {z}_m: "signal-W";'
+    elif rule == "mem_type":
+        pre = [f'Memory {z}_m: "signal-A";', f'Signal {z}_b = ("signal-B", 1);']
+        bad = f"{z}_m.write({z}_b);"
+    elif rule == "second_write":
+        pre = [f'Memory {z}_m: "signal-A";', f'Signal {z}_a = ("signal-A", 1);', f"{z}_m.write({z}_a, when={z}_a > 0);"]
+        bad = f"{z}_m.write({z}_a + 1, when={z}_a > 2);"
+    elif rule == "zero_step":
+        bad = f"for {z}_i in 0..5 step 0 {{ Signal {z}_q = (\"signal-A\", 1); }}"
+    elif rule == "zero_step_var":
+        pre = [f"int {z}_st = 0;"]
+        bad = f"for {z}_i in 0..5 step {z}_st {{ Signal {z}_q = (\"signal-A\", 1); }}"
+    elif rule == "non_comparison_outspec":
+        pre = [f'Signal {z}_a = ("signal-A", 1);']
+        bad = f"Signal {z}_s = ({z}_a + 1) : {z}_a;"
+    elif rule == "syntax_semicolon":
+        bad = f'Signal {z}_s = ("signal-A", 1)'
+    elif rule == "syntax_paren":
+        bad = f'Signal {z}_s = (("signal-A", 1);'
+    return pre, bad
+
+
+def gen_illformed(seed: int):
+    """(source, rule, context): a valid generated program with one violating construct embedded at a random
+    statement position, at top level, inside a called function body, or inside an executed loop body."""
+    rng = random.Random(seed)
+    host = rng.choice([gen_scalar, gen_gated, gen_functions, gen_loops, gen_bundle, gen_entities])(rng.randint(0, 10 ** 9))
+    sts = _statements(host)
+    rule = rng.choice(RULES)
+    pre, bad = violation_snippet(rule, rng, seed % 1000)
+    ctx = rng.choice(["top", "top", "function", "loop", "nested"])
+    if rule in ("recursion", "indirect_recursion", "kind_param", "kind_param_signal", "assign_param", "arity") and ctx != "top":
+        ctx = "top"   # function declarations are top-level constructs
+    if rule.startswith("syntax"):
+        ctx = rng.choice(["top", "function", "loop"])
+    ind = lambda lines, n=1: ["    " * n + l for l in lines]
+    z = f"zc{seed % 1000}"
+    if ctx == "top":
+        block = pre + [bad]
+    elif ctx == "function":
+        block = [f"func {z}_host(Signal hp) {{"] + ind(pre + [bad]) + ["    return hp + 1;", "}",
+                 f'Signal {z}_arg = ("signal-Z", 3);', f"Signal {z}_res = {z}_host({z}_arg);"]
+    elif ctx == "loop":
+        block = [f"for {z}_it in 0..2 {{"] + ind(pre + [bad]) + ["}"]
+    else:
+        block = [f"for {z}_it in 0..2 {{", f"    for {z}_jt in [1, 2] {{"] + ind(pre + [bad], 2) + ["    }", "}"]
+    pos = rng.randint(0, len(sts))
+    out = sts[:pos] + ["\n".join(block)] + sts[pos:]
+    return "\n".join(out) + "\n", rule, ctx
+
+
+# ------------------------------------------------------------------ layout family (C08, C09, C18)
+MULTI_TILE = ["steel-chest", "small-lamp", "inserter", "pump", "storage-tank", "assembling-machine-1", "train-stop",
+              "transport-belt", "power-switch", "iron-chest", "medium-electric-pole"]
+
+
+def gen_layout(seed: int) -> str:
+    """user-placed entities (far apart, negative coordinates, multi-tile prototypes, loops, functions),
+    fan-out, memories and latches: what stresses placement, relays and poles"""
+    rng = random.Random(seed)
+    lines, names = _inputs(rng, rng.randint(1, 3))
+    x = names[0][0]
+    prof = rng.random()
+    used = set()
+
+    def spot(far=False):
+        for _ in range(50):
+            px = rng.randint(-40, 40) if far else rng.randint(-6, 12)
+            py = rng.randint(-25, 25) if far else rng.randint(-4, 8)
+            if all(abs(px - ux) >= 4 or abs(py - uy) >= 4 for ux, uy in used):
+                used.add((px, py))
+                return px, py
+        px, py = 60 + 5 * len(used), 60
+        used.add((px, py))
+        return px, py
+    if prof < 0.35:       # far-apart lamps driven by one source: relays
+        for k in range(rng.randint(2, 5)):
+            px, py = spot(far=True)
+            lines.append(f'Entity e{k} = place("{rng.choice(["small-lamp", "inserter", "pump", "power-switch"])}", {px}, {py});')
+            lines.append(f"e{k}.enable = {x} {rng.choice(CMP)} {rng.randint(-3, 9)};")
+    elif prof < 0.45:     # parallel long connections on neighbouring rows / columns across the origin
+        y0 = rng.randint(-1, 1)
+        a, b = rng.randint(8, 14), rng.randint(7, 14)
+        horizontal = rng.random() < 0.6
+        for k in range(rng.randint(2, 3)):
+            p1 = (-a, y0 - k) if horizontal else (y0 - k, -a)
+            p2 = (b, y0 - k) if horizontal else (y0 - k, b)
+            used.add(p1); used.add(p2)
+            lines.append(f'Entity c{k} = place("steel-chest", {p1[0]}, {p1[1]});')
+            lines.append(f'Entity l{k} = place("small-lamp", {p2[0]}, {p2[1]});')
+            lines.append(f'l{k}.enable = c{k}.output["iron-plate"] > {rng.randint(0, 50)};')
+    elif prof < 0.55:     # two independent far connections (relay sharing)
+        for k in range(2):
+            px, py = spot(far=True)
+            qx, qy = spot(far=True)
+            lines.append(f'Entity c{k} = place("steel-chest", {px}, {py});')
+            lines.append(f'Entity l{k} = place("small-lamp", {qx}, {qy});')
+            lines.append(f'l{k}.enable = c{k}.output["iron-plate"] > {rng.randint(0, 50)};')
+    elif prof < 0.75:     # loops / arithmetic coordinates / multi-tile prototypes
+        a, b = sorted(rng.sample(range(-8, 9), 2))
+        st = rng.choice([1, 2, 3])
+        yk = rng.randint(-5, 5)
+        lines.append(f"int y0 = {yk};")
+        lines.append(f"for i in {a}..{b} step {st} {{")
+        lines.append(f'    Entity t = place("{rng.choice(MULTI_TILE)}", i * 4, y0 + 2);')
+        lines.append("}")
+        lines.append(f"Signal s1 = {x} * 2;")
+    else:                 # fan-out + memory + latch
+        lines.append('Memory m: "signal-M";')
+        lines.append(f'm.write(({x} | "signal-M"), when={x} > 2);')
+        for k in range(rng.randint(3, 7)):
+            lines.append(f"Signal f{k} = (m.read() + {k}) | \"signal-{k}\";")
+        px, py = spot()
+        lines.append(f'Entity lamp = place("small-lamp", {px}, {py});')
+        lines.append(f"lamp.enable = m.read() > 0;")
+    if rng.random() < 0.3:
+        px, py = spot(far=True)
+        lines.append(f'Entity extra = place("{rng.choice(MULTI_TILE)}", {px}, {py});')
     return "\n".join(lines) + "\n"
